@@ -213,6 +213,7 @@ func extractSummary(r *Run, p *packages.Package, roles trackRoles, method string
 	}
 	var walk func(list []ast.Stmt, nilInit string)
 	conditional := 0
+	var earlyExit *ast.IfStmt
 	// idiomCond: conditions that do not make an effect conditional — nil tests of the receiver's own containers
 	// (nil-initialisation / ensure-absent), possibly conjoined with len(other.X) > 0, and bare nil guards whose
 	// body only leaves (return/continue).
@@ -226,6 +227,31 @@ func extractSummary(r *Run, p *packages.Package, roles trackRoles, method string
 			}
 		}
 		if onlyLeaves && ifs.Else == nil {
+			// a bare guard leaves without making the effects conditional only when it tests an argument or the receiver
+			// for nil (nothing to operate on); any other early exit skips the effects for some operations
+			pure := ifs.Init == nil
+			var chkNil func(e ast.Expr)
+			chkNil = func(e ast.Expr) {
+				e = ast.Unparen(e)
+				if be, isBin := e.(*ast.BinaryExpr); isBin {
+					switch be.Op {
+					case token.LOR:
+						chkNil(be.X)
+						chkNil(be.Y)
+						return
+					case token.EQL:
+						if isNilIdent(info, ast.Unparen(be.Y)) {
+							return
+						}
+					}
+				}
+				pure = false
+			}
+			chkNil(ifs.Cond)
+			if pure {
+				return true
+			}
+			earlyExit = ifs
 			return true
 		}
 		ok := true
@@ -445,6 +471,15 @@ func extractSummary(r *Run, p *packages.Package, roles trackRoles, method string
 		}
 	}
 	s.Effects = out
+	if earlyExit != nil {
+		// effects positioned after a conditional early exit do not happen on every path
+		for i := range s.Effects {
+			if s.Effects[i].Pos > earlyExit.Pos() && !strings.HasSuffix(s.Effects[i].Op, "?") {
+				s.Effects[i].Op += "?"
+			}
+		}
+		s.Frame = append(s.Frame, "an early exit under `"+exprString(r.Fset, earlyExit.Cond)+"` skips the tracking effects for some operations")
+	}
 	return s
 }
 
